@@ -785,9 +785,20 @@ def check_glue(ctx, gs, d, n_relabel=1, replay_relabelled=None):
 
     # ---- (a) property predicate
     names = gs.expected_samples()
+    def contiguous(f):
+        seq = [r["chrom"] for r in f["records"]]
+        runs = [c for i_, c in enumerate(seq) if i_ == 0 or seq[i_ - 1] != c]
+        return len(runs) == len(set(runs))
+    if not all(contiguous(f) for f in gs.files):
+        # the records of a chromosome are not contiguous: not a file the property speaks about (the reader keeps the LAST run of
+        # a chromosome only — modelled, so the correspondence below still applies); the definition oracle is skipped
+        ctx.observe("glue: a file with non-contiguous records of one chromosome — oracle skipped, correspondence only")
+        names = None if names is None else "skip"
     if names is None:
         if res["rc"] == 0:
             fail("whatshap compare ran although the options select no sample present in all files", "glue-sample-refusal")
+    elif names == "skip":
+        names = None
     elif res["error"] == "exception":
         if res.get("keyerror") and p == 2 and multi:
             fail("whatshap compare dies with KeyError in complement(): a heterozygous multi-allelic call lists an allele >= 2 on the "
@@ -841,7 +852,8 @@ def check_glue(ctx, gs, d, n_relabel=1, replay_relabelled=None):
 
     def model_equal(ans):
         if "error" in ans:
-            return res["error"] == ans["error"] and not res["rows"]
+            want = "exception" if ans["error"] == "no-sample" else ans["error"]     # a VCF without samples: IndexError
+            return res["error"] == want and not res["rows"]
         chroms = ans["chroms"]
         died = bool(chroms and chroms[-1]["died"])
         if died != (res["error"] == "exception") or (res["error"] not in (None, "exception")):
